@@ -14,6 +14,11 @@ FILES = {
     "mixed.lua": "local x = 1\nprint(undefined_thing)\n",
     "parse.lua": "local = \n",
     "parse1.lua": "x = = 1\n",
+    "tok_string.lua": "local s = \"unclosed\n",
+    "tok_comment.lua": "print(1)\n--[[ unclosed\n",
+    "tok_char.lua": "local y = 3 $ 4\n",
+    "tok_number.lua": "local x = 0x\n",
+    "sub/tok.lua": "local s = 'unclosed\n",
     "empty.lua": "",
     "ex_warn.lua": "local x = 1\n",
     "ex_err.lua": "print(undefined_thing)\n",
@@ -29,6 +34,9 @@ FILES = {
     "notlua/readme.txt": "not lua\n",
 }
 MISSING = ["nope.lua", "ex_nope.lua", "sub/nope.lua", "vendor_missing"]
+# directories whose name ends in .lua: a directory walk lists them and reading them fails (EISDIR) - the one
+# "unreadable file" that can be produced when running as root
+UNREADABLE = ["sub/isdir.lua", "sub/deep/isdir.lua", "ex_dir/isdir.lua"]
 DIRS = ["sub", "ex_dir", "vendor", "sub/deep", "notlua"]
 EXCLUDE = ["*ex_*", "vendor"]
 
@@ -95,6 +103,8 @@ class C19(Prop):
                 p = os.path.join(pd, rel)
                 os.makedirs(os.path.dirname(p), exist_ok=True)
                 open(p, "w").write(text)
+            for rel in UNREADABLE:
+                os.makedirs(os.path.join(pd, rel), exist_ok=True)
             open(os.path.join(pd, "selene.toml"), "w").write(
                 ctext.split("[lints]")[0] + "exclude = %s\n" % str(EXCLUDE).replace("'", '"') +
                 ("[lints]" + ctext.split("[lints]")[1] if "[lints]" in ctext else ""))
@@ -123,9 +133,9 @@ class C19(Prop):
                 else:
                     d = rnd.choice(DIRS)
                     args.append(d)
-                    inner = sorted(f for f in FILES if f.startswith(d + "/") and f.endswith(".lua"))
+                    inner = sorted(f for f in list(FILES) + UNREADABLE if f.startswith(d + "/") and f.endswith(".lua"))
                     entries.append("(EDir %s)" % cli.glist(
-                        "{| f_excluded := %s; f_outcome := %s |}" % (cli.gbool(excluded(f)), outcome_term(oc[f]))
+                        "{| f_excluded := %s; f_outcome := %s |}" % (cli.gbool(excluded(f)), "Unreadable" if f in UNREADABLE else outcome_term(oc[f]))
                         for f in inner))
             aw, ne, ns = rnd.random() < 0.5, rnd.random() < 0.4, rnd.random() < 0.25
             style = rnd.choice(["quiet", "quiet", "json2", "json2", "rich", "json", "luacheck"])
